@@ -136,6 +136,10 @@ type FuncSpec struct {
 	// and an out-parameter argument `x[n:]` is written back with GoX.setSliceFrom.
 	SliceAlias bool
 	TypeSwitch bool // `switch v := x.(type) { case T: .. }` -> match chain over the model's `(x).as_T : Option _` views (first matching case wins, as in Go)
+	// (C14) OutCallState: with LoopStyle "state", a call STATEMENT `f(v, ..)` whose callee is a LocalOut entry with Keep (f writes through
+	// its pointer argument v) counts as an assignment to v when the loop's state is collected: `for _, opt := range opts { opt(j) }`
+	// -> `let j := GoX.foldList opts j (fun j opt => let j := opt j; j)`
+	OutCallState bool
 	// ---- endpoint-layer extensions (C05); each one only acts when its field is set
 	GenMethods  map[string]string // method name -> translated function of this group: recv.M(args) -> (F now recv args)
 	KeepParents []string          // sentinels whose `.WithParent(S)` wrapping is kept: oidc.ErrX().WithParent(S) -> "ErrX<S" (errors.Is can see S)
@@ -2699,6 +2703,18 @@ func (t *tr) assignedOuter(body *ast.BlockStmt) []string {
 	seen := map[string]bool{}
 	local := map[string]bool{}
 	ast.Inspect(body, func(n ast.Node) bool {
+		if es, isExpr := n.(*ast.ExprStmt); isExpr && t.spec.OutCallState {
+			if c, isCall := es.X.(*ast.CallExpr); isCall {
+				if op, found := t.lookupOutParam(exprString(c.Fun)); found && op.Keep && op.Index < len(c.Args) {
+					name := strings.TrimPrefix(exprString(c.Args[op.Index]), "&")
+					if t.declared[name] && !local[name] && !seen[name] {
+						seen[name] = true
+						out = append(out, name)
+					}
+				}
+			}
+			return true
+		}
 		as, ok := n.(*ast.AssignStmt)
 		if !ok {
 			return true
